@@ -85,6 +85,15 @@ pub fn print_impl_from<W: std::fmt::Write, T: FromTemplate>(
                     )?;
                     writeln!(w, "?;")?;
 
+                    // The discriminant above was decoded as the target of a
+                    // typedef'd switch type, so that is the type enum labels
+                    // have to be cast to.
+                    let switch_type = ast
+                        .types()
+                        .typedef_target(v.switch.var_type.as_str())
+                        .map(|t| &t.target)
+                        .unwrap_or(&v.switch.var_type);
+
                     writeln!(w, "Ok(match {} {{", SafeName(&v.switch.var_name))?;
                     for c in v.cases.iter() {
                         // A single case statement may have many case values tied to it
@@ -112,7 +121,7 @@ pub fn print_impl_from<W: std::fmt::Write, T: FromTemplate>(
                                         ref variant,
                                     } => format!(
                                         "c if c == {}::{} as {}",
-                                        enum_name, variant, v.switch.var_type,
+                                        enum_name, variant, switch_type,
                                     ),
                                 })
                                 .unwrap_or_else(|| SafeName(c_value).to_string());
@@ -154,7 +163,7 @@ pub fn print_impl_from<W: std::fmt::Write, T: FromTemplate>(
                                         ref variant,
                                     } => format!(
                                         "c if c == {}::{} as {}",
-                                        enum_name, variant, v.switch.var_type,
+                                        enum_name, variant, switch_type,
                                     ),
                                 })
                                 .unwrap_or_else(|| SafeName(other).to_string()),
